@@ -29,6 +29,9 @@ type C38Case struct {
 	Workers  [][]C38Op `json:"workers"`
 	Tape     []uint16  `json:"tape"`
 	Disabled []string  `json:"disabled,omitempty"`
+	// SpinBurst: goroutines waiting in a spin loop may run for this many steps
+	// in a row although the goroutine they wait for could run (a stalled leader).
+	SpinBurst int `json:"spin_burst,omitempty"`
 }
 
 var internStrings = []string{
@@ -91,6 +94,9 @@ func genC38(t *rapid.T) C38Case {
 		c.Workers = append(c.Workers, ops)
 	}
 	c.Tape = genTape(t, 400)
+	if rapid.IntRange(0, 3).Draw(t, "spinBurst") == 0 {
+		c.SpinBurst = rapid.IntRange(50, 600).Draw(t, "spinBurstLen")
+	}
 	c.Disabled = genDisabled(t, internHookPoints)
 	return c
 }
@@ -254,7 +260,7 @@ func execC38(t *testing.T, c C38Case) *Verdict {
 			storeResults(results, wi, mine)
 		}})
 	}
-	out := sim.RunHBFree(sim.RConfig{Tape: c.Tape, Disabled: setOf(c.Disabled), SpinPoints: internSpinPoints, SpinFollowers: map[string]bool{"n.slow.los": true}, MaxSteps: 6000}, workers)
+	out := sim.RunHBFree(sim.RConfig{Tape: c.Tape, Disabled: setOf(c.Disabled), SpinPoints: internSpinPoints, SpinFollowers: map[string]bool{"n.slow.los": true}, MaxSteps: 6000, SpinBurst: c.SpinBurst}, workers)
 	stored := 0
 	for _, ops := range c.Workers {
 		for _, op := range ops {
